@@ -4,6 +4,7 @@
 (*   Encrypt    Document::encrypt(&state)                                                      *)
 (*   Decrypt    Document::decrypt(pw)            AuthUser / AuthOwner / Auth                    *)
 (*   Save       Document::save_to                Load   Document::load_mem (auto-decrypt)       *)
+(*   Edit       the caller rewrites the strings / content of one object of the plain document  *)
 (* The effect of each call is Security!Step (impl-shaped layer, switches Dev_x); next to the   *)
 (* impl-shaped state the machine carries the judge state j of the declarative layer and the    *)
 (* verdict Security!Judge gives for the call just made, computed from what can be observed of  *)
@@ -31,7 +32,7 @@ SysInit(c, objs) ==
     /\ cfg = c
     /\ doc = objs
     /\ trailerEncrypt = 0 /\ encObj = NoEnc /\ encState = NoSt /\ disk = NoDisk
-    /\ lastCall = [call |-> "-", rel |-> NoRel, tok |-> ""]
+    /\ lastCall = [call |-> "-", rel |-> NoRel, tok |-> "", pos |-> 0]
     /\ lastResult = [ok |-> TRUE, tag |-> "-"]
     /\ j = J0
     /\ verdict = [ok |-> TRUE, tags |-> {"ok"}]
@@ -47,7 +48,7 @@ Apply(c) ==
     /\ lastCall' = c
     /\ UNCHANGED cfg
 
-Call(name, rel, tok) == [call |-> name, rel |-> rel, tok |-> tok]
+Call(name, rel, tok) == [call |-> name, rel |-> rel, tok |-> tok, pos |-> 0]
 
 MakeState        == Apply(Call("MakeState", NoRel, ""))
 Encrypt          == Apply(Call("Encrypt", NoRel, ""))
@@ -57,4 +58,5 @@ AuthOwner(rel, t) == Apply(Call("AuthOwner", rel, t))
 Auth(rel, t)     == Apply(Call("Auth", rel, t))
 Save             == Apply(Call("Save", NoRel, ""))
 Load             == Apply(Call("Load", NoRel, ""))
+Edit(pos)        == Apply([call |-> "Edit", rel |-> NoRel, tok |-> "", pos |-> pos])
 =============================================================================
